@@ -7,6 +7,7 @@ import TinodeVerif.Driver.C12
 import TinodeVerif.Driver.C18
 import TinodeVerif.Driver.World
 import TinodeVerif.Driver.Gate
+import TinodeVerif.Driver.Calls
 /-!
 Line-protocol driver. Usage:
   driver model    < ops.txt        > model.out     one output line per op line
@@ -99,6 +100,19 @@ partial def loopGate (h : IO.FS.Stream) (out : IO.FS.Stream) (st : Driver.Gate.S
     | some (st', o) => out.putStrLn o; loopGate h out st'
     | none => out.putStrLn "bad-op"; loopGate h out st
 
+partial def loopCalls (h : IO.FS.Stream) (out : IO.FS.Stream) (st : Calls.CS) : IO Unit := do
+  let line ← h.getLine
+  if line.isEmpty then return ()
+  let l := if line.endsWith "\n" then (line.dropEnd 1).toString else line
+  let ws := Wire.words l
+  if ws.isEmpty then
+    out.putStrLn ""
+    loopCalls h out st
+  else
+    match Driver.Calls.step st ws with
+    | some (st', o) => out.putStrLn o; loopCalls h out st'
+    | none => out.putStrLn "bad-op"; loopCalls h out st
+
 partial def loop (h : IO.FS.Stream) (out : IO.FS.Stream) (f : String → String) : IO Unit := do
   let line ← h.getLine
   if line.isEmpty then return ()
@@ -114,4 +128,5 @@ def main (args : List String) : IO UInt32 := do
   | ["verdict"] => loop stdin stdout verdictLine; stdout.flush; return 0
   | ["world"] => loopWorld stdin stdout {}; stdout.flush; return 0
   | ["gate"] => loopGate stdin stdout {}; stdout.flush; return 0
+  | ["calls"] => loopCalls stdin stdout {}; stdout.flush; return 0
   | _ => IO.eprintln "usage: driver model|verdict"; return 2
